@@ -60,6 +60,8 @@ struct OpSt {
     attempts: Vec<abi::Sqe>,
     /// Completions posted for the current attempt / all attempts.
     posted: Vec<Cq>,
+    /// Everything the kernel ever posted for the operation (all attempts), in order.
+    posted_all: Vec<Cq>,
     /// What the future handed out: (code, value) with code 11 ok, 12 err, 13 end.
     outputs: Vec<(i128, i128)>,
     finished: bool,
@@ -467,6 +469,7 @@ impl World {
         simk::with(|s| s.complete(req, c.res, flags));
         let o = &mut self.ops[i];
         o.posted.push(c);
+        o.posted_all.push(c);
         let readies = match o.kind {
             OpKind::MultiAccept => true,
             _ => !c.more,
@@ -572,6 +575,7 @@ pub fn one_case(r: &mut Rng, focus: &Focus, silent: &Arc<Mutex<Option<String>>>)
             ud: None,
             attempts: Vec::new(),
             posted: Vec::new(),
+            posted_all: Vec::new(),
             outputs: Vec::new(),
             finished: false,
             dropped: false,
@@ -592,7 +596,17 @@ pub fn one_case(r: &mut Rng, focus: &Focus, silent: &Arc<Mutex<Option<String>>>)
     // Before which events an operation that never starts (panicking buffer) is polled and dropped.
     let ghost_at: Vec<usize> = if r.chance(1, 3) { (0..r.range(1, 2)).map(|_| r.below(n_events as u64) as usize).collect() } else { Vec::new() };
     let mut ghosts_done: Vec<usize> = Vec::new();
-    for ev_index in 0..n_events {
+    // C02: a fifth of the histories whose first operation is a multishot one begin with a slow
+    // consumer: two results queued, one taken, a third arriving before the second is taken.
+    let mut scripted: std::collections::VecDeque<Event> = std::collections::VecDeque::new();
+    if focus.prop == "C02" && kinds[0].0 == OpKind::MultiAccept && r.chance(1, 2) {
+        let c = |k: i32| Cq { res: 2_100_000 + k, more: true, notif: false };
+        scripted.extend([
+            Event::Poll(0, 100), Event::RingPoll, Event::KPost(0, c(1)), Event::KPost(0, c(2)), Event::RingPoll,
+            Event::Poll(0, 100), Event::KPost(0, c(3)), Event::RingPoll, Event::Poll(0, 100), Event::Poll(0, 100), Event::Poll(0, 100),
+        ]);
+    }
+    for ev_index in 0..n_events + scripted.len() {
         if w.oracle.is_some() {
             break;
         }
@@ -620,6 +634,7 @@ pub fn one_case(r: &mut Rng, focus: &Focus, silent: &Arc<Mutex<Option<String>>>)
             choice -= wgt;
         }
         let ev = match kind {
+            _ if !scripted.is_empty() => scripted.pop_front().unwrap(),
             0 if !pollable.is_empty() => {
                 let i = *r.pick(&pollable);
                 let wk = match w.ops[i].last_poll {
@@ -783,6 +798,26 @@ fn check_outputs(i: usize, o: &OpSt) -> Option<String> {
             if o.outputs.iter().any(|x| x.0 == 12 && restart(x.1)) && !o.dropped {
                 // A restart at the end of the stream must not surface either.
                 return Some(format!("multishot operation {i} surfaced an interruption to the caller"));
+            }
+            // Identity and order: the successful results handed out are results the kernel posted
+            // for this operation, each at most once, in the order it posted them (the descriptor
+            // numbers are unique per history).
+            let posted_ok: Vec<i128> = o.posted_all.iter().filter(|c| c.res >= 0 && !c.notif).map(|c| c.res as i128).collect();
+            let mut at = 0usize;
+            for (code, v) in o.outputs.iter() {
+                if *code != 11 {
+                    continue;
+                }
+                match posted_ok[at..].iter().position(|p| p == v) {
+                    Some(k) => at += k + 1,
+                    None => {
+                        return Some(if posted_ok.contains(v) {
+                            format!("multishot operation {i} handed out result {v} out of order (or twice): the kernel posted {posted_ok:?}, the stream yielded {:?}", o.outputs.iter().filter(|x| x.0 == 11).map(|x| x.1).collect::<Vec<_>>())
+                        } else {
+                            format!("multishot operation {i} handed out {v}, which the kernel never posted for it ({posted_ok:?})")
+                        });
+                    }
+                }
             }
             None
         }
